@@ -12,6 +12,7 @@ import (
 	"sort"
 	"strings"
 
+	"golang.org/x/tools/go/packages"
 	"golang.org/x/tools/go/ssa"
 )
 
@@ -19,6 +20,15 @@ import (
 // A9
 
 // regexpVarPattern returns the constant pattern of `var name = regexp.MustCompile(<const>)`.
+func (w *World) regexpVarPatternIn(p *packages.Package, name string) (string, token.Pos, error) {
+	for short, pp := range w.Pkgs {
+		if pp == p {
+			return w.regexpVarPattern(short, name)
+		}
+	}
+	return "", token.NoPos, anchorErr{name}
+}
+
 func (w *World) regexpVarPattern(pkg, name string) (string, token.Pos, error) {
 	e, p, err := w.VarDeclValue(pkg, name)
 	if err != nil {
@@ -543,7 +553,7 @@ func propC14(r *Run, w *World) {
 			if !strings.HasPrefix(t, "new(rule.") {
 				continue
 			}
-			typ := t[len("new(") : strings.Index(t, ")")]
+			typ := t[len("new("):strings.Index(t, ")")]
 			field := t[strings.LastIndex(t, ".")+1:]
 			v := Term(st.Val)
 			if i := strings.LastIndex(v, ".flagSet"); i >= 0 {
@@ -562,7 +572,7 @@ func propC14(r *Run, w *World) {
 			if !strings.HasPrefix(t, "new(rule.") {
 				continue
 			}
-			typ := t[len("new(") : strings.Index(t, ")")]
+			typ := t[len("new("):strings.Index(t, ")")]
 			field := t[strings.LastIndex(t, ".")+1:]
 			v := strings.TrimPrefix(Term(st.Val), "newRuleFlagSet#1.")
 			if prev, dup := got[typ+"."+field]; dup {
